@@ -48,3 +48,31 @@ pub trait ParseUnit<N> {
         ensures r is Ok ==> self.next_wf(r->Ok_0.next);
 }
 pub type UnitResult<T, N> = syn::Result<Unit<T, N>>;
+
+// ---- peeking (only given a meaning where all peeks of a path precede its first consuming call, see DESIGN A13) ----
+/// identity of a keyword / punctuation token type that can be peeked
+pub trait Kw { spec fn id() -> int; }
+
+impl ParseBuffer {
+    /// the next token is the keyword / token with this identity
+    pub uninterp spec fn peeks(&self, id: int) -> bool;
+    /// the token after the next one is ..
+    pub uninterp spec fn peeks2(&self, id: int) -> bool;
+    #[verifier::external_body]
+    pub fn peek<K: Kw>(&self, k: K) -> (r: bool) ensures r == self.peeks(K::id()), { unimplemented!() }
+    #[verifier::external_body]
+    pub fn peek2<K: Kw>(&self, k: K) -> (r: bool) ensures r == self.peeks2(K::id()), { unimplemented!() }
+    #[verifier::external_body]
+    pub fn span(&self) -> (r: Span) { unimplemented!() }
+}
+impl SynError {
+    #[verifier::external_body]
+    pub fn new<M>(span: Span, msg: M) -> (r: SynError) { unimplemented!() }
+}
+
+/// the next token is ONE token: it cannot be two different keywords at once
+#[verifier::external_body]
+pub proof fn axiom_one_next_token(input: &ParseBuffer, a: int, b: int)
+    ensures input.peeks(a) && input.peeks(b) ==> a == b,
+{}
+
